@@ -630,7 +630,7 @@ theorem perm_flatMap_filter_key (key : Track → Nat) (ks : List Nat) (hnd : ks.
         = ks.flatMap fun k => (if key t = k then [t] else []) ++ ts.filter fun u => key u = k := by
       congr 1
       funext k
-      by_cases hk : key t = k <;> simp [List.filter_cons, hk]
+      by_cases hk : key t = k <;> simp [hk]
     rw [hsplit]
     refine (List.flatMap_append_perm ks _ _).symm.trans ?_
     rw [flatMap_ite_singleton t (key t) ks hnd (hmem t (List.mem_cons_self ..))]
@@ -754,6 +754,182 @@ theorem extract_rows_perm (excl : Bool) (tracks : List Track) (hc : Consistent t
     intro t ht
     exact (mem_uniqFirst _ _).2 (List.mem_map.2 ⟨t, List.mem_of_mem_filter ht, rfl⟩)
 
+/-! ### when the extraction refuses, and the `removed_zeros` flag -/
+
+theorem mem_of_map_eq_map_some {γ δ : Type} (f : γ → Option δ) : ∀ (gs : List γ) (parts : List δ),
+    gs.map f = parts.map some → ∀ p, p ∈ parts ↔ ∃ G ∈ gs, f G = some p := by
+  intro gs
+  induction gs with
+  | nil => intro parts hm p; cases parts <;> simp at hm ⊢
+  | cons G gs ih =>
+    intro parts hm p
+    cases parts with
+    | nil => simp at hm
+    | cons q qs =>
+      simp only [List.map_cons, List.cons.injEq] at hm
+      simp only [List.mem_cons, ih qs hm.2 p, exists_eq_or_imp, hm.1, Option.some.injEq]
+      constructor
+      · rintro (h | h)
+        · exact Or.inl h.symm
+        · exact Or.inr h
+      · rintro (h | h)
+        · exact Or.inl h.symm
+        · exact Or.inr h
+
+theorem extractGroup_none_iff (excl : Bool) (g0 : Track) (gs : List Track) :
+    extractGroup excl false (g0 :: gs) = none
+      ↔ ∃ t ∈ (g0 :: gs).filter (keep excl), t.minObs = none := by
+  unfold extractGroup
+  simp only [kept_eq, Bool.false_eq_true, if_false]
+  have hnz : ((if excl then (g0 :: gs).filter Track.endsDefined else g0 :: gs).map Track.duration).filter
+      (fun x => decide (0 < x)) = ((g0 :: gs).filter (keep excl)).map Track.duration := by
+    rw [List.filter_map, ← kept_eq]
+    rfl
+  rw [hnz]
+  split
+  · rename_i hnil
+    have : (g0 :: gs).filter (keep excl) = [] := by simpa using hnil
+    simp [this]
+  · split
+    · rename_i hnone
+      have := (allSome_eq_none _).1 hnone
+      simp only [List.mem_map] at this
+      obtain ⟨t, ht, htn⟩ := this
+      simp only [true_iff]
+      exact ⟨t, ht, htn⟩
+    · rename_i ms hms
+      have hm := (allSome_eq_some _ _).1 hms
+      simp only [reduceCtorEq, false_iff, not_exists, not_and]
+      intro t ht htn
+      have : t.minObs ∈ ((g0 :: gs).filter (keep excl)).map (·.minObs) := List.mem_map.2 ⟨t, ht, rfl⟩
+      rw [hm, htn] at this
+      simp at this
+
+theorem extract_none_iff' (excl : Bool) (tracks : List Track) :
+    extract excl false tracks = none ↔ ∃ t ∈ tracks, keep excl t = true ∧ t.minObs = none := by
+  unfold extract
+  constructor
+  · intro h
+    split at h
+    · rename_i hnone
+      have := (allSome_eq_none _).1 hnone
+      obtain ⟨G, hG, hGn⟩ := List.mem_map.1 this
+      obtain ⟨k, g0, gs, hGk, hGc⟩ := mem_tracksByKymo tracks G hG
+      rw [hGc] at hGn
+      obtain ⟨t, ht, htn⟩ := (extractGroup_none_iff excl g0 gs).1 hGn
+      obtain ⟨ht1, ht2⟩ := List.mem_filter.1 ht
+      have : t ∈ tracks := by
+        have : t ∈ G := hGc ▸ ht1
+        rw [hGk] at this
+        exact List.mem_of_mem_filter this
+      exact ⟨t, this, ht2, htn⟩
+    · exact absurd h (by simp)
+  · rintro ⟨t, ht, hk, htn⟩
+    have hG : tracks.filter (fun u => decide (u.kymo = t.kymo)) ∈ tracksByKymo tracks := by
+      unfold tracksByKymo
+      exact List.mem_map.2 ⟨t.kymo, (mem_uniqFirst _ _).2 (List.mem_map.2 ⟨t, ht, rfl⟩), rfl⟩
+    obtain ⟨k, g0, gs, _, hGc⟩ := mem_tracksByKymo tracks _ hG
+    have htG : t ∈ g0 :: gs := hGc ▸ List.mem_filter.2 ⟨ht, by simp⟩
+    have hnone : extractGroup excl false (g0 :: gs) = none :=
+      (extractGroup_none_iff excl g0 gs).2 ⟨t, List.mem_filter.2 ⟨htG, hk⟩, htn⟩
+    have : none ∈ (tracksByKymo tracks).map (extractGroup excl false) :=
+      List.mem_map.2 ⟨_, hG, hGc ▸ hnone⟩
+    rw [(allSome_eq_none _).2 this]
+
+theorem filter_length_ne_iff {β : Type} (p : β → Bool) (l : List β) :
+    ((l.filter p).length != l.length) = l.any (fun x => !p x) := by
+  induction l with
+  | nil => simp
+  | cons x xs ih =>
+    have hle := List.length_filter_le p xs
+    by_cases hx : p x = true
+    · simp only [List.filter_cons, hx, if_true, List.length_cons, List.any_cons, Bool.not_true,
+        Bool.false_or, ← ih]
+      by_cases h : (xs.filter p).length = xs.length <;> simp [h]
+    · simp only [Bool.not_eq_true] at hx
+      simp only [List.filter_cons, hx, Bool.false_eq_true, if_false, List.length_cons, List.any_cons,
+        Bool.not_false, Bool.true_or]
+      simp only [bne_iff_ne, ne_eq]
+      omega
+
+/-- the tracks whose zero duration makes the code warn: not excluded as ambiguous, yet of duration `≤ 0` -/
+def zeroDwell (excl : Bool) (t : Track) : Bool := (!excl || t.endsDefined) && !decide (0 < specDuration t)
+
+theorem extractGroup_removed (excl om : Bool) (G : List Track) (rows : List Row) (rem : Bool)
+    (h : extractGroup excl om G = some (rows, rem)) : rem = G.any (zeroDwell excl) := by
+  have hrem : ∀ dw : List Rat, dw = (if excl then G.filter Track.endsDefined else G).map Track.duration →
+      ((dw.filter (fun x => decide (0 < x))).length != dw.length) = G.any (zeroDwell excl) := by
+    intro dw hdw
+    rw [filter_length_ne_iff, hdw, List.any_map]
+    cases excl
+    · simp only [Bool.false_eq_true, if_false]
+      congr 1; funext t; simp [zeroDwell, duration_eq]
+    · simp only [if_true, List.any_filter]
+      congr 1; funext t; simp [zeroDwell, duration_eq]
+  rw [← hrem _ rfl]
+  unfold extractGroup at h
+  simp only at h
+  generalize (if excl then G.filter Track.endsDefined else G) = tr at h ⊢
+  generalize (((tr.map Track.duration).filter fun x => decide (0 < x)).length
+    != (tr.map Track.duration).length) = flag at h ⊢
+  cases G with
+  | nil =>
+    simp only [Option.some.injEq, Prod.mk.injEq] at h
+    exact h.2.symm
+  | cons g0 gs =>
+    simp only at h
+    by_cases hnz : (tr.map Track.duration).filter (fun x => decide (0 < x)) = []
+    · rw [if_pos hnz] at h
+      simp only [Option.some.injEq, Prod.mk.injEq] at h
+      exact h.2.symm
+    · rw [if_neg hnz] at h
+      cases om with
+      | true =>
+        simp only [if_true, Option.some.injEq, Prod.mk.injEq] at h
+        exact h.2.symm
+      | false =>
+        simp only [Bool.false_eq_true, if_false] at h
+        split at h
+        · exact absurd h (by simp)
+        · simp only [Option.some.injEq, Prod.mk.injEq] at h
+          exact h.2.symm
+
+theorem extract_removed' (excl om : Bool) (tracks : List Track) (rows : List Row) (rem : Bool)
+    (h : extract excl om tracks = some (rows, rem)) : rem = tracks.any (zeroDwell excl) := by
+  unfold extract at h
+  split at h
+  · exact absurd h (by simp)
+  · rename_i parts hparts
+    simp only [Option.some.injEq, Prod.mk.injEq] at h
+    have hm := (allSome_eq_some _ _).1 hparts
+    have hmem := mem_of_map_eq_map_some _ _ _ hm
+    rw [← h.2, Bool.eq_iff_iff, List.any_eq_true, List.any_eq_true]
+    constructor
+    · rintro ⟨p, hp, hp2⟩
+      obtain ⟨G, hG, hGp⟩ := (hmem p).1 hp
+      obtain ⟨r', m'⟩ := p
+      have := extractGroup_removed excl om G r' m' hGp
+      simp only at hp2
+      rw [hp2] at this
+      obtain ⟨t, ht, htz⟩ := List.any_eq_true.1 this.symm
+      obtain ⟨k, g0, gs, hGk, _⟩ := mem_tracksByKymo tracks G hG
+      exact ⟨t, List.mem_of_mem_filter (hGk ▸ ht), htz⟩
+    · rintro ⟨t, ht, htz⟩
+      have hG : tracks.filter (fun u => decide (u.kymo = t.kymo)) ∈ tracksByKymo tracks := by
+        unfold tracksByKymo
+        exact List.mem_map.2 ⟨t.kymo, (mem_uniqFirst _ _).2 (List.mem_map.2 ⟨t, ht, rfl⟩), rfl⟩
+      have hsome : ∃ p, extractGroup excl om (tracks.filter (fun u => decide (u.kymo = t.kymo))) = some p := by
+        have : extractGroup excl om (tracks.filter (fun u => decide (u.kymo = t.kymo)))
+            ∈ (tracksByKymo tracks).map (extractGroup excl om) := List.mem_map.2 ⟨_, hG, rfl⟩
+        rw [hm] at this
+        obtain ⟨p, _, hp⟩ := List.mem_map.1 this
+        exact ⟨p, hp.symm⟩
+      obtain ⟨⟨r', m'⟩, hp⟩ := hsome
+      have hrem := extractGroup_removed excl om _ r' m' hp
+      have : (tracks.filter (fun u => decide (u.kymo = t.kymo))).any (zeroDwell excl) = true :=
+        List.any_eq_true.2 ⟨t, List.mem_filter.2 ⟨ht, by simp⟩, htz⟩
+      exact ⟨(r', m'), (hmem _).2 ⟨_, hG, hp⟩, by simp [hrem, this]⟩
+
 /-! ## odds and ends used by the property statements -/
 
 theorem specE_lt_of_lt (a b tau : ℝ) (ht : 0 < tau) (h : a < b) :
@@ -801,5 +977,249 @@ theorem sum_map_sub_const (ps : List (ℝ × ℝ)) (tmin : ℝ) (h : ∀ p ∈ p
     simp only [List.map_cons, List.sum_cons, List.length_cons]
     rw [ih fun q hq => h q (List.mem_cons_of_mem _ hq), h p (List.mem_cons_self ..)]
     push_cast; ring
+
+/-! ## the analytic gradient of the continuous model (ext) -/
+
+/-- `tmax · e^{-tmax/τ}`, `0` for an unbounded window -/
+noncomputable def specME (tmax : Option ℝ) (tau : ℝ) : ℝ :=
+  match tmax with
+  | none => 0
+  | some m => m * Real.exp (-m / tau)
+
+/-- numerator of the density: `Σ a_i/τ_i e^{-t/τ_i}` -/
+noncomputable def specP (comps : List (Comp ℝ)) (t : ℝ) : ℝ :=
+  (comps.map fun c => c.amp / c.tau * Real.exp (-t / c.tau)).sum
+
+/-- textbook `∂/∂a_c log pdf = (e^{-t/τ_c}/τ_c)/P − (e^{-tmin/τ_c} − e^{-tmax/τ_c})/N` -/
+noncomputable def specDa (comps : List (Comp ℝ)) (t tmin : ℝ) (tmax : Option ℝ) (c : Comp ℝ) : ℝ :=
+  (Real.exp (-t / c.tau) / c.tau) / specP comps t
+    - (Real.exp (-tmin / c.tau) - specE tmax c.tau) / specNormCont comps tmin tmax
+
+/-- textbook `∂/∂τ_c log pdf = a_c e^{-t/τ_c}(t/τ_c³ − 1/τ_c²)/P − a_c (tmin e^{-tmin/τ_c} − tmax e^{-tmax/τ_c})/τ_c²/N` -/
+noncomputable def specDtau (comps : List (Comp ℝ)) (t tmin : ℝ) (tmax : Option ℝ) (c : Comp ℝ) : ℝ :=
+  (c.amp * Real.exp (-t / c.tau) * (t / c.tau ^ 3 - 1 / c.tau ^ 2)) / specP comps t
+    - (c.amp * (tmin * Real.exp (-tmin / c.tau) - specME tmax c.tau) / c.tau ^ 2)
+        / specNormCont comps tmin tmax
+
+theorem clipAmp_real (a : ℝ) (h : (1.0e-14 : ℝ) ≤ a) : clipAmp a = a := by
+  unfold clipAmp
+  simp only [RealLike.lt, decide_eq_true_eq]
+  rw [if_neg (not_lt.2 h)]
+
+theorem maxBound_real (tmax : Option ℝ) (tau : ℝ) (h : ∀ m, tmax = some m → m / tau < (1.0e10 : ℝ)) :
+    maxBound tmax tau = specME tmax tau := by
+  cases tmax with
+  | none => simp only [maxBound, specME]; norm_num
+  | some m =>
+    simp only [maxBound, specME, RealLike.lt, RealLike.exp, decide_eq_true_eq]
+    rw [if_pos (h m rfl), neg_div]
+
+theorem specP_pos (comps : List (Comp ℝ)) (hne : comps ≠ []) (hadm : Admissible comps) (t : ℝ) :
+    0 < specP comps t :=
+  sum_map_pos comps _ hne fun c hc =>
+    mul_pos (div_pos (hadm c hc).1 (hadm c hc).2) (Real.exp_pos _)
+
+/-- the code's collapsed chain-rule expressions are the textbook partial derivatives, for every
+    component, when the amplitude clip (`a ≥ 1e-14`) and the `t_max/τ < 1e10` mask are inactive -/
+theorem gradObsCont_eq_spec (comps : List (Comp ℝ)) (hne : comps ≠ []) (hadm : Admissible comps)
+    (hclip : ∀ c ∈ comps, (1.0e-14 : ℝ) ≤ c.amp) (t tmin : ℝ) (tmax : Option ℝ)
+    (hwin : ∀ m, tmax = some m → tmin < m)
+    (hvalid : ∀ c ∈ comps, ∀ m, tmax = some m → m / c.tau < (1.0e10 : ℝ)) :
+    gradObsCont comps t tmin tmax
+      = comps.map fun c => (specDa comps t tmin tmax c, specDtau comps t tmin tmax c) := by
+  have hw : ∀ c ∈ comps, specE tmax c.tau < Real.exp (-tmin / c.tau) :=
+    fun c hc => specE_lt tmin tmax c.tau (hadm c hc).2 hwin
+  have hNpos := specNormCont_pos comps hne hadm tmin tmax hw
+  have hPpos := specP_pos comps hne hadm t
+  have hcs : (comps.map fun c => (⟨clipAmp c.amp, c.tau⟩ : Comp ℝ)) = comps := by
+    conv_rhs => rw [← List.map_id comps]
+    exact List.map_congr_left fun c hc => by rw [clipAmp_real _ (hclip c hc)]; rfl
+  unfold gradObsCont
+  simp only [hcs]
+  have hN : sumL (comps.map fun c => c.amp * (RealLike.exp ((-tmin) / c.tau) - expNegMax tmax c.tau))
+      = specNormCont comps tmin tmax := by
+    rw [sumL_eq_sum]; unfold specNormCont
+    congr 1
+    exact List.map_congr_left fun c _ => by simp only [RealLike.exp, expNegMax_real]
+  simp only [hN]
+  have h1 : ((1.0 : ℝ)) = 1 := by norm_num
+  have hexp : ∀ c ∈ comps, Real.exp (RealLike.log (1.0 / specNormCont comps tmin tmax) + RealLike.log c.amp
+      + -RealLike.log c.tau - t / c.tau)
+      = c.amp / c.tau * Real.exp (-t / c.tau) * (specNormCont comps tmin tmax)⁻¹ := by
+    intro c hc
+    obtain ⟨ha, ht⟩ := hadm c hc
+    simp only [RealLike.log, h1]
+    rw [sub_eq_add_neg, Real.exp_add, Real.exp_add, Real.exp_add, Real.exp_neg (Real.log c.tau),
+      Real.exp_log ha, Real.exp_log ht, Real.exp_log (by positivity), neg_div]
+    field_simp
+  have hS : (comps.map fun c => Real.exp (RealLike.log (1.0 / specNormCont comps tmin tmax)
+        + RealLike.log c.amp + -RealLike.log c.tau - t / c.tau)).sum
+      = specP comps t * (specNormCont comps tmin tmax)⁻¹ := by
+    unfold specP
+    rw [← sum_map_mul_const]
+    congr 1
+    exact List.map_congr_left hexp
+  have htot : RealLike.exp (lse (comps.map fun c => RealLike.log (1.0 / specNormCont comps tmin tmax)
+        + RealLike.log c.amp + -RealLike.log c.tau - t / c.tau))
+      = specP comps t * (specNormCont comps tmin tmax)⁻¹ := by
+    simp only [RealLike.exp]
+    rw [exp_lse_map comps _ _ hne hexp, sum_map_mul_const]; rfl
+  have hsum : sumL ((comps.map fun c => RealLike.log (1.0 / specNormCont comps tmin tmax)
+        + RealLike.log c.amp + -RealLike.log c.tau - t / c.tau).map RealLike.exp)
+      = specP comps t * (specNormCont comps tmin tmax)⁻¹ := by
+    rw [sumL_eq_sum, List.map_map]
+    exact hS
+  simp only [htot, hsum]
+  refine List.map_congr_left fun c hc => ?_
+  obtain ⟨ha, ht⟩ := hadm c hc
+  have hNne := hNpos.ne'
+  have hPne := hPpos.ne'
+  have hm1 : ((-1.0 : ℝ)) = -1 := by norm_num
+  simp only [RealLike.exp]
+  rw [hexp c hc]
+  simp only [maxBound_real tmax c.tau (hvalid c hc), expNegMax_real, h1,
+    specDa, specDtau, Prod.mk.injEq]
+  constructor
+  · field_simp
+    ring
+  · field_simp
+    ring
+
+/-! ### the textbook partial derivatives are derivatives -/
+
+theorem specP_split (pre post : List (Comp ℝ)) (c : Comp ℝ) (t : ℝ) :
+    specP (pre ++ c :: post) t = specP pre t + (c.amp / c.tau * Real.exp (-t / c.tau) + specP post t) := by
+  unfold specP; simp [List.map_append, List.sum_append]
+
+theorem specNormCont_split (pre post : List (Comp ℝ)) (c : Comp ℝ) (tmin : ℝ) (tmax : Option ℝ) :
+    specNormCont (pre ++ c :: post) tmin tmax
+      = specNormCont pre tmin tmax
+        + (c.amp * (Real.exp (-tmin / c.tau) - specE tmax c.tau) + specNormCont post tmin tmax) := by
+  unfold specNormCont; simp [List.map_append, List.sum_append]
+
+theorem specPdfCont_eq (comps : List (Comp ℝ)) (tmin t : ℝ) (tmax : Option ℝ) :
+    specPdfCont comps tmin tmax t = specP comps t / specNormCont comps tmin tmax := rfl
+
+theorem hasDerivAt_logpdf_amp (pre post : List (Comp ℝ)) (a0 tau t tmin : ℝ) (tmax : Option ℝ)
+    (hP : 0 < specP (pre ++ ⟨a0, tau⟩ :: post) t)
+    (hN : 0 < specNormCont (pre ++ ⟨a0, tau⟩ :: post) tmin tmax) :
+    HasDerivAt (fun a => Real.log (specPdfCont (pre ++ ⟨a, tau⟩ :: post) tmin tmax t))
+      (specDa (pre ++ ⟨a0, tau⟩ :: post) t tmin tmax ⟨a0, tau⟩) a0 := by
+  have hPd : HasDerivAt (fun a => specP (pre ++ ⟨a, tau⟩ :: post) t)
+      (Real.exp (-t / tau) / tau) a0 := by
+    have h : HasDerivAt (fun a : ℝ => specP pre t + (a / tau * Real.exp (-t / tau) + specP post t))
+        (0 + (1 / tau * Real.exp (-t / tau) + 0)) a0 :=
+      (hasDerivAt_const a0 _).add
+        ((((hasDerivAt_id' a0).div_const tau).mul_const _).add (hasDerivAt_const a0 _))
+    have hf : (fun a => specP (pre ++ ⟨a, tau⟩ :: post) t)
+        = fun a : ℝ => specP pre t + (a / tau * Real.exp (-t / tau) + specP post t) :=
+      funext fun a => specP_split pre post ⟨a, tau⟩ t
+    rw [hf]
+    exact h.congr_deriv (by ring)
+  have hNd : HasDerivAt (fun a => specNormCont (pre ++ ⟨a, tau⟩ :: post) tmin tmax)
+      (Real.exp (-tmin / tau) - specE tmax tau) a0 := by
+    have h : HasDerivAt (fun a : ℝ => specNormCont pre tmin tmax
+          + (a * (Real.exp (-tmin / tau) - specE tmax tau) + specNormCont post tmin tmax))
+        (0 + (1 * (Real.exp (-tmin / tau) - specE tmax tau) + 0)) a0 :=
+      (hasDerivAt_const a0 _).add (((hasDerivAt_id' a0).mul_const _).add (hasDerivAt_const a0 _))
+    have hf : (fun a => specNormCont (pre ++ ⟨a, tau⟩ :: post) tmin tmax)
+        = fun a : ℝ => specNormCont pre tmin tmax
+          + (a * (Real.exp (-tmin / tau) - specE tmax tau) + specNormCont post tmin tmax) :=
+      funext fun a => specNormCont_split pre post ⟨a, tau⟩ tmin tmax
+    rw [hf]
+    exact h.congr_deriv (by ring)
+  have hq := (hPd.div hNd hN.ne').log (div_pos hP hN).ne'
+  simp only [specPdfCont_eq]
+  refine hq.congr_deriv ?_
+  unfold specDa
+  simp only [Pi.div_apply]
+  have := hP.ne'
+  have := hN.ne'
+  field_simp
+
+theorem hasDerivAt_specE (tmax : Option ℝ) (tau0 : ℝ) (ht : tau0 ≠ 0) :
+    HasDerivAt (fun tau => specE tmax tau) (specME tmax tau0 / tau0 ^ 2) tau0 := by
+  cases tmax with
+  | none => simpa [specE, specME] using hasDerivAt_const tau0 (0 : ℝ)
+  | some m =>
+    simp only [specE, specME]
+    have h1 : HasDerivAt (fun tau : ℝ => -m / tau) ((0 * tau0 - -m * 1) / tau0 ^ 2) tau0 :=
+      (hasDerivAt_const tau0 (-m)).div (hasDerivAt_id' tau0) ht
+    exact h1.exp.congr_deriv (by ring)
+
+theorem hasDerivAt_logpdf_tau (pre post : List (Comp ℝ)) (a tau0 t tmin : ℝ) (tmax : Option ℝ)
+    (ht : 0 < tau0)
+    (hP : 0 < specP (pre ++ ⟨a, tau0⟩ :: post) t)
+    (hN : 0 < specNormCont (pre ++ ⟨a, tau0⟩ :: post) tmin tmax) :
+    HasDerivAt (fun tau => Real.log (specPdfCont (pre ++ ⟨a, tau⟩ :: post) tmin tmax t))
+      (specDtau (pre ++ ⟨a, tau0⟩ :: post) t tmin tmax ⟨a, tau0⟩) tau0 := by
+  have hexp : ∀ x : ℝ, HasDerivAt (fun tau : ℝ => Real.exp (-x / tau))
+      (Real.exp (-x / tau0) * (x / tau0 ^ 2)) tau0 := by
+    intro x
+    have h1 : HasDerivAt (fun tau : ℝ => -x / tau) ((0 * tau0 - -x * 1) / tau0 ^ 2) tau0 :=
+      (hasDerivAt_const tau0 (-x)).div (hasDerivAt_id' tau0) ht.ne'
+    exact h1.exp.congr_deriv (by ring)
+  have hPd : HasDerivAt (fun tau => specP (pre ++ ⟨a, tau⟩ :: post) t)
+      (a * Real.exp (-t / tau0) * (t / tau0 ^ 3 - 1 / tau0 ^ 2)) tau0 := by
+    have hdiv : HasDerivAt (fun tau : ℝ => a / tau) ((0 * tau0 - a * 1) / tau0 ^ 2) tau0 :=
+      (hasDerivAt_const tau0 a).div (hasDerivAt_id' tau0) ht.ne'
+    have h := (hasDerivAt_const tau0 (specP pre t)).add
+      ((hdiv.mul (hexp t)).add (hasDerivAt_const tau0 (specP post t)))
+    have hf : (fun tau => specP (pre ++ ⟨a, tau⟩ :: post) t)
+        = fun tau : ℝ => specP pre t + (a / tau * Real.exp (-t / tau) + specP post t) :=
+      funext fun tau => specP_split pre post ⟨a, tau⟩ t
+    rw [hf]
+    refine h.congr_deriv ?_
+    have := ht.ne'
+    field_simp
+    ring
+  have hNd : HasDerivAt (fun tau => specNormCont (pre ++ ⟨a, tau⟩ :: post) tmin tmax)
+      (a * (tmin * Real.exp (-tmin / tau0) - specME tmax tau0) / tau0 ^ 2) tau0 := by
+    have h := (hasDerivAt_const tau0 (specNormCont pre tmin tmax)).add
+      ((((hexp tmin).sub (hasDerivAt_specE tmax tau0 ht.ne')).const_mul a).add
+        (hasDerivAt_const tau0 (specNormCont post tmin tmax)))
+    have hf : (fun tau => specNormCont (pre ++ ⟨a, tau⟩ :: post) tmin tmax)
+        = fun tau : ℝ => specNormCont pre tmin tmax
+          + (a * (Real.exp (-tmin / tau) - specE tmax tau) + specNormCont post tmin tmax) :=
+      funext fun tau => specNormCont_split pre post ⟨a, tau⟩ tmin tmax
+    rw [hf]
+    refine h.congr_deriv ?_
+    have := ht.ne'
+    field_simp
+    ring
+  have hq := (hPd.div hNd hN.ne').log (div_pos hP hN).ne'
+  simp only [specPdfCont_eq]
+  refine hq.congr_deriv ?_
+  unfold specDtau
+  simp only [Pi.div_apply]
+  have := hP.ne'
+  have := hN.ne'
+  have := ht.ne'
+  field_simp
+
+/-! ### putting it together for the model's log-likelihood -/
+
+theorem logLikObs_eq_log_spec (comps : List (Comp ℝ)) (hne : comps ≠ []) (hadm : Admissible comps)
+    (tmin t : ℝ) (tmax : Option ℝ) (hwin : ∀ m, tmax = some m → tmin < m) :
+    logLikObs comps ⟨t, tmin, tmax, none⟩ = Real.log (specPdfCont comps tmin tmax t) := by
+  have h := pdf_cont_eq_spec comps hne hadm tmin t tmax
+    fun c hc => specE_lt tmin tmax c.tau (hadm c hc).2 hwin
+  unfold pdfCont pdf at h
+  simp only [RealLike.exp] at h
+  rw [← h, Real.log_exp]
+
+theorem admissible_replace (pre post : List (Comp ℝ)) (c c' : Comp ℝ)
+    (h : Admissible (pre ++ c :: post)) (hc' : 0 < c'.amp ∧ 0 < c'.tau) :
+    Admissible (pre ++ c' :: post) := by
+  intro x hx
+  simp only [List.mem_append, List.mem_cons] at hx
+  rcases hx with hx | rfl | hx
+  · exact h x (by simp [hx])
+  · exact hc'
+  · exact h x (by simp [hx])
+
+theorem getD_map_mid {β γ : Type} (f : β → γ) (pre post : List β) (c : β) (d : γ) :
+    ((pre ++ c :: post).map f).getD pre.length d = f c := by
+  simp [List.getD_eq_getElem?_getD]
 
 end Verif.C15
